@@ -302,6 +302,15 @@ Theorem C18_source_dead_zone : forall look tm m v, let r := ModifSrc.DeadZone_ap
 Proof. exact SrcTie2P.DeadZone_apply_tie. Qed.
 
 
+(* ---- source tie, third wave (DESIGN 11.7): the input reader / Negate / SwizzleAxis regenerated from the Rust source ---- *)
+From BEI Require Generated.ReaderSrc Generated.ModifSrc Proofs.SrcTie3P.
+Theorem C18_source_negate : forall look tm rec m v, let r := ModifSrc.Negate_apply_open_src (ModifSrc.Negate_apply_open_src rec) m v in (SrcTie3P.negate_of (fst r), snd r) = Modif.modif_apply look tm v (SrcTie3P.negate_of m).
+Proof. exact SrcTie3P.Negate_apply_tie. Qed.
+
+Theorem C18_source_swizzle : forall look tm rec k v, let r := ModifSrc.SwizzleAxis_apply_open_src (ModifSrc.SwizzleAxis_apply_open_src rec) k v in Modif.MSwizzle (fst r) = fst (Modif.modif_apply look tm v (Modif.MSwizzle k)) /\ Value.veq (snd r) (snd (Modif.modif_apply look tm v (Modif.MSwizzle k))).
+Proof. exact SrcTie3P.SwizzleAxis_apply_tie. Qed.
+
+
 Print Assumptions C18_numeric_dim.
 Print Assumptions C18_negate_axes.
 Print Assumptions C18_negate_dim.
@@ -362,3 +371,5 @@ Print Assumptions C18_app_judgement_transfer.
 Print Assumptions C18_source_scale.
 Print Assumptions C18_source_delta_scale.
 Print Assumptions C18_source_dead_zone.
+Print Assumptions C18_source_negate.
+Print Assumptions C18_source_swizzle.
